@@ -69,10 +69,10 @@ def run(ctx):
     rnd = random.Random(ctx.seed * 982451653 + 7)
     ctx.rule = ("base documents = minimal document of each of the 390 classes + TLC-simulated valid documents; mutation = one "
                 "or several unknown / vendor elements or subtrees inserted at a position inside any aggregate (quick: sampled "
-                "positions, thorough: every position); routes: from_etree, XML text, SGML text; non-trivial = distinct "
+                "positions, thorough: every position, 3 kinds each); routes: from_etree, XML text, SGML text; non-trivial = distinct "
                 "(base document, position, kind, route)")
     bases = [("min " + c, dc.from_nested(mins[c])) for c in sorted(schema)]
-    for i, g in enumerate(gc.simulate_docs(ctx, 300 if quick else 4000, maxtok=30, jvms=2 if quick else 8)):
+    for i, g in enumerate(gc.simulate_docs(ctx, 300 if quick else 1200, maxtok=30, jvms=2 if quick else 8)):
         bases.append(("gen%d" % i, gc.concretise(g, types, rnd, rich=True, wire=True)))
     evs = []
     n = 0
@@ -89,15 +89,15 @@ def run(ctx):
         for p in pos:
             enc = enclosing(base, p)
             kinds = unknowns(rnd)
-            if quick:
-                kinds = rnd.sample(kinds, 4)
+            kinds = rnd.sample(kinds, 4 if quick else 3)
             for kind, toks in kinds:
                 # a tag "known elsewhere" must not be defined by the enclosing aggregate
                 if enc is not None and any(t["tag"] in {a["tag"] for a in schema.get(enc, {"attrs": []})["attrs"]}
                                            for t in toks[:1]):
                     continue
                 doc = base[:p] + copy.deepcopy(toks) + base[p:]
-                route = rnd.choice(["etree", "xml", "sgml"]) if quick else None
+                # (thorough: every position of every base; all three routes for the minimal documents)
+                route = rnd.choice(["etree", "xml", "sgml"]) if quick or not name.startswith("min ") else None
                 for r in ([route] if route else ["etree", "xml", "sgml"]):
                     e = dc.ev_doc("m%d" % len(evs), doc, schema, route=r, label="%s +%s@%d" % (name, kind, p),
                                   expect="accept", twin=twin)
